@@ -2,5 +2,5 @@ Require Extraction.
 Require Import ExtrOcamlBasic.
 From Coq Require Import ZArith NArith.
 From SWH.lib Require Import Sha1.
-From SWH.model Require Import Dir FromDisk.
-Extraction "extract/C06/model.ml" from_disk mt_id mt_get node_id git_node_id prune_empty prune_named export norm_path wf_fs keys sha1 Z.of_N N.to_nat.
+From SWH.model Require Import Dir FromDisk FromDiskIter.
+Extraction "extract/C06/model.ml" from_disk from_disk_iter lid lrev mt_id mt_get node_id git_node_id prune_empty prune_named export norm_path wf_fs keys sha1 Z.of_N N.to_nat.
